@@ -17,6 +17,8 @@ pub(crate) fn local_channel<T: ExchangeData>(
     receiver_endpoint: ReceiverEndpoint,
 ) -> (NetworkSender<T>, NetworkReceiver<T>) {
     let (sender, receiver) = channel::bounded(CHANNEL_CAPACITY);
+    #[cfg(feature = "verif")]
+    crate::verif::register_message_type::<T>();
     (
         NetworkSender {
             receiver_endpoint,
@@ -75,17 +77,44 @@ impl<In: Send + 'static> NetworkReceiver<In> {
     }
 
     /// Receive a message from any sender.
+    #[cfg_attr(feature = "verif", allow(unreachable_code))]
     pub fn recv(&self) -> Result<NetworkMessage<In>, RecvError> {
+        #[cfg(feature = "verif")]
+        {
+            let res = self.profile_message(self.receiver.recv());
+            if let Ok(m) = &res {
+                crate::verif::recv_event(self.receiver_endpoint, m, "recv");
+            }
+            return res;
+        }
         self.profile_message(self.receiver.recv())
     }
 
     /// Receive a message from any sender without blocking.
+    #[cfg_attr(feature = "verif", allow(unreachable_code))]
     pub fn try_recv(&self) -> Result<NetworkMessage<In>, TryRecvError> {
+        #[cfg(feature = "verif")]
+        {
+            let res = self.profile_message(self.receiver.try_recv());
+            if let Ok(m) = &res {
+                crate::verif::recv_event(self.receiver_endpoint, m, "try");
+            }
+            return res;
+        }
         self.profile_message(self.receiver.try_recv())
     }
 
     /// Receive a message from any sender with a timeout.
+    #[cfg_attr(feature = "verif", allow(unreachable_code))]
     pub fn recv_timeout(&self, timeout: Duration) -> Result<NetworkMessage<In>, RecvTimeoutError> {
+        #[cfg(feature = "verif")]
+        {
+            let res = self.profile_message(self.receiver.recv_timeout(timeout));
+            if let Ok(m) = &res {
+                crate::verif::recv_event(self.receiver_endpoint, m, "timeout");
+            }
+            return res;
+        }
         self.profile_message(self.receiver.recv_timeout(timeout))
     }
 
@@ -94,19 +123,49 @@ impl<In: Send + 'static> NetworkReceiver<In> {
     /// The first message of the two is returned. If both receivers are ready one of them is chosen
     /// randomly (with an unspecified probability). It's guaranteed this function has the eventual
     /// fairness property.
+    #[cfg_attr(feature = "verif", allow(unreachable_code))]
     pub fn select<In2: ExchangeData>(
         &self,
         other: &NetworkReceiver<In2>,
     ) -> SelectResult<NetworkMessage<In>, NetworkMessage<In2>> {
+        #[cfg(feature = "verif")]
+        {
+            let res = self.receiver.select(&other.receiver);
+            match &res {
+                SelectResult::A(Ok(m)) => {
+                    crate::verif::recv_event(self.receiver_endpoint, m, "selectA")
+                }
+                SelectResult::B(Ok(m)) => {
+                    crate::verif::recv_event(other.receiver_endpoint, m, "selectB")
+                }
+                _ => {}
+            }
+            return res;
+        }
         self.receiver.select(&other.receiver)
     }
 
     /// Same as `select`, with a timeout.
+    #[cfg_attr(feature = "verif", allow(unreachable_code))]
     pub fn select_timeout<In2: ExchangeData>(
         &self,
         other: &NetworkReceiver<In2>,
         timeout: Duration,
     ) -> Result<SelectResult<NetworkMessage<In>, NetworkMessage<In2>>, RecvTimeoutError> {
+        #[cfg(feature = "verif")]
+        {
+            let res = self.receiver.select_timeout(&other.receiver, timeout);
+            match &res {
+                Ok(SelectResult::A(Ok(m))) => {
+                    crate::verif::recv_event(self.receiver_endpoint, m, "selectA")
+                }
+                Ok(SelectResult::B(Ok(m))) => {
+                    crate::verif::recv_event(other.receiver_endpoint, m, "selectB")
+                }
+                _ => {}
+            }
+            return res;
+        }
         self.receiver.select_timeout(&other.receiver, timeout)
     }
 }
@@ -139,6 +198,19 @@ impl<Out: ExchangeData> NetworkSender<Out> {
             self.receiver_endpoint.coord,
             message.num_items(),
         );
+
+        #[cfg(feature = "verif")]
+        crate::verif::emit(|| {
+            let (from, els) = crate::verif::message(&message);
+            let via = if crate::verif::in_batcher() {
+                "batcher"
+            } else {
+                "direct"
+            };
+            let mux = matches!(&self.sender, SenderInner::Mux(_));
+            serde_json::json!({"ev": "send", "from": from, "els": els, "via": via, "mux": mux,
+                "to": crate::verif::endpoint_str(self.receiver_endpoint)})
+        });
 
         match &self.sender {
             SenderInner::Mux(tx) => tx
